@@ -696,6 +696,32 @@ pub fn translate_only_offset(inst: Inst) {
     vp!(C09, unsafe { !STRAY_ACCESS }, "translate dereferenced memory that is not a page table of the hierarchy");
 }
 
+/// `identity_map` of a frame whose physical address is not a canonical virtual address (bit 47 set, bits 48-63
+/// clear): no page has "the same address", the documented outcome is the panic of `VirtAddr::new`.
+pub fn identity_noncanonical(which: u8) {
+    let inst = Inst { ix: [1, 258, 259, 260], shape: 0, parent: W, pflags: 0, fail: 0, conc: true };
+    let sc = build(inst, 0);
+    let mut alloc = Alloc::new(sc.free, 0);
+    let fa: u64 = 0x0000_8000_4000_0000;
+    let fl = PageTableFlags::from_bits_retain(P | W);
+    kani::cover!(true);
+    match which {
+        0 => {
+            let mut m = mapper();
+            let _ = unsafe { m.identity_map(PhysFrame::<Size4KiB>::containing_address(PhysAddr::new(fa)), fl, &mut alloc) };
+        }
+        1 => {
+            let mut m = mapper();
+            let _ = unsafe { m.identity_map(PhysFrame::<Size2MiB>::containing_address(PhysAddr::new(fa)), fl, &mut alloc) };
+        }
+        _ => {
+            let mut m = mapper();
+            let _ = unsafe { m.identity_map(PhysFrame::<Size1GiB>::containing_address(PhysAddr::new(fa)), fl, &mut alloc) };
+        }
+    }
+    vp!(C01, false, "identity_map returned for a frame whose address is not a canonical virtual address (no page has that address)");
+}
+
 /// translate family on an arbitrary hierarchy (no modification).
 pub fn translate_only_recursive(inst: Inst) {
     let sc = build(inst, 0);
